@@ -109,6 +109,7 @@ type sCase struct {
 	Hist  []sOp   `json:"hist"`
 	State []jType `json:"state"`
 	Op    sOp     `json:"op"`
+	Names int     `json:"names"` // concretisation of the name tokens (0 = as they are)
 }
 
 func kindName(t int) string {
@@ -130,42 +131,83 @@ func kindOf(name string) int {
 	return t
 }
 
+// Concretisation of names.  The specification speaks of name tokens; the real
+// schema gets the names a style gives them.  Style 1 makes them confusable: type
+// and field names made of the same letter and underscores, so that different
+// (type, name) tuples join to the same text ("a"+"_"+"a_a" = "a_a"+"_"+"a").
+// Type positions and field positions are mapped separately; a token without an
+// entry (zz, the empty name) stays as it is.
+var nameStyle int
+
+var (
+	confTypes  = map[string]string{"a": "a", "b": "a_a", "c": "a_a_a"}
+	confFields = map[string]string{"r": "a", "s": "a_a", "x": "a_a_a"}
+	confTypesR = invert(confTypes)
+	confFldsR  = invert(confFields)
+)
+
+func invert(m map[string]string) map[string]string {
+	out := map[string]string{}
+	for k, v := range m {
+		out[v] = k
+	}
+	return out
+}
+
+func via(m map[string]string, s string) string {
+	if nameStyle == 0 {
+		return s
+	}
+	if v, ok := m[s]; ok {
+		return v
+	}
+	if _, ok := invert(m)[s]; ok {
+		return "?" + s // a token that would collide with a concrete name: not used by the cfgs
+	}
+	return s
+}
+
+func ctn(tok string) string  { return via(confTypes, tok) }   // type token -> name
+func cfn(tok string) string  { return via(confFields, tok) }  // field token -> name
+func atn(name string) string { return via(confTypesR, name) } // type name -> token
+func afn(name string) string { return via(confFldsR, name) }  // field name -> token
+
 func toRel(r jRel) jsonapi.Rel {
-	return jsonapi.Rel{FromType: r.FT, FromName: r.FN, ToOne: r.To1, ToType: r.TT, ToName: r.TN, FromOne: r.Fo1}
+	return jsonapi.Rel{FromType: ctn(r.FT), FromName: cfn(r.FN), ToOne: r.To1, ToType: ctn(r.TT), ToName: cfn(r.TN), FromOne: r.Fo1}
 }
 
 func fromRel(r jsonapi.Rel) jRel {
-	return jRel{FT: r.FromType, FN: r.FromName, To1: r.ToOne, TT: r.ToType, TN: r.ToName, Fo1: r.FromOne}
+	return jRel{FT: atn(r.FromType), FN: afn(r.FromName), To1: r.ToOne, TT: atn(r.ToType), TN: afn(r.ToName), Fo1: r.FromOne}
 }
 
 func toAttr(a jAttr) jsonapi.Attr {
-	return jsonapi.Attr{Name: a.Name, Type: kindOf(a.K), Nullable: a.Null}
+	return jsonapi.Attr{Name: cfn(a.Name), Type: kindOf(a.K), Nullable: a.Null}
 }
 
 func toType(t jType) jsonapi.Type {
-	typ := jsonapi.Type{Name: t.Name}
+	typ := jsonapi.Type{Name: ctn(t.Name)}
 	if len(t.Attrs) > 0 {
 		typ.Attrs = map[string]jsonapi.Attr{}
 		for k, a := range t.Attrs {
-			typ.Attrs[k] = toAttr(a)
+			typ.Attrs[cfn(k)] = toAttr(a)
 		}
 	}
 	if len(t.Rels) > 0 {
 		typ.Rels = map[string]jsonapi.Rel{}
 		for k, r := range t.Rels {
-			typ.Rels[k] = toRel(r)
+			typ.Rels[cfn(k)] = toRel(r)
 		}
 	}
 	return typ
 }
 
 func projType(t jsonapi.Type) jType {
-	jt := jType{Name: t.Name, Attrs: attrMap{}, Rels: relMap{}}
+	jt := jType{Name: atn(t.Name), Attrs: attrMap{}, Rels: relMap{}}
 	for k, a := range t.Attrs {
-		jt.Attrs[k] = jAttr{Name: a.Name, K: kindName(a.Type), Null: a.Nullable}
+		jt.Attrs[afn(k)] = jAttr{Name: afn(a.Name), K: kindName(a.Type), Null: a.Nullable}
 	}
 	for k, r := range t.Rels {
-		jt.Rels[k] = fromRel(r)
+		jt.Rels[afn(k)] = fromRel(r)
 	}
 	return jt
 }
@@ -186,15 +228,15 @@ func applySchemaOp(s *jsonapi.Schema, op sOp) string {
 		case "AddType":
 			err = s.AddType(toType(op.Typ))
 		case "RemoveType":
-			s.RemoveType(op.T)
+			s.RemoveType(ctn(op.T))
 		case "AddAttr":
-			err = s.AddAttr(op.T, toAttr(op.Attr))
+			err = s.AddAttr(ctn(op.T), toAttr(op.Attr))
 		case "RemoveAttr":
-			s.RemoveAttr(op.T, op.N)
+			s.RemoveAttr(ctn(op.T), cfn(op.N))
 		case "AddRel":
-			err = s.AddRel(op.T, toRel(op.Rel))
+			err = s.AddRel(ctn(op.T), toRel(op.Rel))
 		case "RemoveRel":
-			s.RemoveRel(op.T, op.N)
+			s.RemoveRel(ctn(op.T), cfn(op.N))
 		case "AddTwoWayRel":
 			err = s.AddTwoWayRel(toRel(op.Rel))
 		default:
@@ -232,14 +274,16 @@ func observeSchema(s *jsonapi.Schema, probes []string) sObs {
 			key = "_empty" // a JSON member name TLC can use as a record field
 		}
 		_ = key
-		o.Has[n] = s.HasType(n)
-		o.Get[n] = s.GetType(n).Name
+		o.Has[n] = s.HasType(ctn(n))
+		o.Get[n] = atn(s.GetType(ctn(n)).Name)
 	}
 	return o
 }
 
 // runSchemaCase executes one case on a fresh real schema and returns the event.
 func runSchemaCase(c sCase, probes []string) sEvent {
+	nameStyle = c.Names
+	defer func() { nameStyle = 0 }()
 	s := buildSchema(c)
 	ev := sEvent{Pre: projSchema(s), Op: c.Op}
 	if c.Kind == "check" {
@@ -378,23 +422,38 @@ func schemaMain(args []string) {
 			chosen = append(shallow, deep[:n]...)
 			stt.Exhaustive = false
 		}
-		for _, s := range chosen {
+		// the universe with two relationship names on two types is the one where joined
+		// names can coincide: it is run under both name styles, the others alternate
+		twoByTwo := false
+		for _, op := range alpha {
+			if op.Op == "AddTwoWayRel" && op.Rel.TT == "b" && (op.Rel.FN == "s" || op.Rel.TN == "s") {
+				twoByTwo = true
+			}
+		}
+		for si, s := range chosen {
 			stt.States++
 			builds := []string{"hist"}
 			if *lit {
 				builds = append(builds, "lit")
 			}
+			styles := []int{si % 2}
+			if twoByTwo {
+				styles = []int{0, 1}
+			}
 			for _, b := range builds {
-				base := sCase{Fam: "schema", Build: b, Hist: s.Hist, State: s.State}
-				for _, op := range alpha {
+				for _, ns := range styles {
+					base := sCase{Fam: "schema", Build: b, Hist: s.Hist, State: s.State, Names: ns}
+					for _, op := range alpha {
+						c := base
+						c.Kind = "step"
+						c.Op = op
+						emit(c)
+					}
 					c := base
-					c.Kind = "step"
-					c.Op = op
+					c.Kind = "check"
 					emit(c)
+					stt.class(fmt.Sprintf("names:%d", ns))
 				}
-				c := base
-				c.Kind = "check"
-				emit(c)
 			}
 		}
 	}
@@ -416,7 +475,7 @@ func schemaMain(args []string) {
 					op = alpha[rng.Intn(len(alpha))]
 				}
 			}
-			c := sCase{Fam: "schema", Kind: "step", Build: "hist", Hist: append([]sOp(nil), hist...), Op: op}
+			c := sCase{Fam: "schema", Kind: "step", Build: "hist", Hist: append([]sOp(nil), hist...), Op: op, Names: i % 2}
 			ev := runSchemaCase(c, probes)
 			stt.Calls++
 			stt.class(ev.Op.Op + ":" + ev.Ret)
